@@ -69,6 +69,43 @@ PROPS["C03"] = {
     "assumptions": ["attacker holds only its own private key"],
 }
 
+KAD = {
+    "real": ["p/kademlia Cache, distance functions, DHTNode, DHTFindNode/DHTJoin/DHTGet/DHTPut"],
+    "stub": ["clock (`now` arguments; synctest fake clock for DHTNode)", "the network between DHT nodes (the Ask callbacks are the harness: loss, crashed nodes, adversarial responders)", "map iteration order (runtime overlay)"],
+    "tier": "A (trace-deterministic, single-threaded)",
+}
+PROPS["C18"] = {
+    "pkg": "kad", "engine": "seqsim", "env": {"SIM_PROP": "C18"}, "legs": ["history"],
+    "runs": {"quick": 20000, "thorough": 1500000}, "budget": {"quick": 150, "thorough": 1800},
+    "rule": "one run = one generated history (5-125 operations: put, update, delete, expire, get/contains, enumeration) against one real Cache under a simulated clock (equal timestamps, steps, jumps, 10% of runs all-zero times); "
+            "locus length 1,2,4,32 bytes, every accepted (capacity, per-bucket minimum) shape incl. the smallest capacity the constructor accepts and 0; keys biased to share 0..all leading bits with the locus; "
+            "non-trivial = at least one eviction or expiry happened; distinct = distinct operation traces",
+    "components": KAD,
+    "level_text": "seeded exploration of operation histories against a reference map with a relational eviction rule stated from the property (victim in the farthest non-protected bucket), checked after every operation",
+    "level_note": "trusted: the reference model and oracle in sim/kad; no concurrency leg: the cache's operations are atomic under its mutex at the granularity the simulator schedules, so a concurrent leg could not fail (races are C14's job)",
+    "assumptions": ["time is the only environment of this property; no network or crash fault applies"],
+}
+PROPS["C19"] = {
+    "pkg": "kad", "engine": "seqsim", "env": {"SIM_PROP": "C19"}, "legs": ["history"],
+    "runs": {"quick": 20000, "thorough": 1500000}, "budget": {"quick": 150, "thorough": 1800},
+    "rule": "the cache states reached by C18-style histories; after every mutation two generated query keys (sharing 0..all leading bits with the locus and with entries) are checked: ForEach visits every entry once in non-decreasing XOR distance, Closest is a true minimum, ForEachCloser yields all and only the nearer entries, ForEachMatching all and only the prefix matches, against a brute-force big-endian XOR comparison; "
+            "non-trivial = an order check over at least two entries took place; distinct = distinct traces",
+    "components": KAD,
+    "level_text": "invariant checking on simulated cache states with an independent brute-force distance oracle",
+    "level_note": "the algebraic laws of the distance comparison on arbitrary byte triples are a pure function and are not decided here (DESIGN.md §7)",
+    "assumptions": ["query keys have the length of the locus (shorter keys compare on the common prefix only, where any order of ties is accepted)"],
+}
+PROPS["C20"] = {
+    "pkg": "kad", "engine": "seqsim", "env": {"SIM_PROP": "C20"}, "legs": ["honest", "adversarial", "adversarial"],
+    "runs": {"quick": 4000, "thorough": 300000}, "budget": {"quick": 150, "thorough": 1800},
+    "rule": "one run = one simulated network of 3-30 (thorough: up to 200) real DHTNodes with random or dense ids, random links, then 3-14 operations (find node, join, put, get, crash/restart, churn) from random origins with 0..N initial peers; the Ask callbacks are the network: per-call loss, crashed nodes, and (leg adversarial) 1-3 responders returning self/asker/target, cyclic and duplicated lists, 10^4-entry lists, fabricated ever-closer ids; "
+            "non-trivial = some operation made more than one ask; distinct = distinct traces",
+    "components": KAD,
+    "level_text": "seeded exploration of topologies, initial-peer sets, faults and adversarial responder behaviours with a whole-network oracle: each id asked at most once, asks bounded by ids mentioned (cut at 10x as non-termination), closest/value/accepted/error truthful",
+    "level_note": "'contacted' = the operation invoked its ask callback for the node; closest is checked against the nearest contacted node that responded (get) / accepted (put), the lenient reading",
+    "assumptions": ["adversaries fabricate at most 40 ids per operation"],
+}
+
 NOT_APPLICABLE = {
     "C17": "pure functions of their input (key/peer-id marshal, parse, equality, fingerprint): no schedule, clock, fault or second party for a simulator to vary; see DESIGN.md §7",
 }
